@@ -38,12 +38,16 @@ CFG = {
         "mock-mode sends that all went out the last returned hash - and evaluated by the one-pass monitor holds_fast (proved equal to "
         "holds); the correspondence thereby also exercises counts beyond 2^8 and 2^16 (65536 / 70000 / 131075 further attempts against "
         "one sent code, 65536 refused sends, a window of >= 65536 sends filled and overrun); the attempt bound itself is a theorem for "
-        "every number of attempts (the model's counters are unbounded integers)."
+        "every number of attempts (the model's counters are unbounded integers). Class codelen and the nonce runs also put the configured "
+        "length at and around 32, 64, 128, 256, 1024, 4096 and random lengths up to 6000 (real sender and VerifGenNonceStr; lengths 33, 65, "
+        "4096 on every run): the code handed to the sender must have exactly that length over the digits and equal the model's pick from the "
+        "draws, exactly that code verifies and the empty / shorter / longer / changed one does not; the model and the theorems "
+        "(nonce_length, valid_code_iff_generated, mock_code_length) are for every length."
     ),
     "rule": (
         "a history case = one fresh service instance + one generated sequence of SendSMSCode / VerifySMSCode calls (6-30 calls, 1-5 "
         "pairs) with the verifier's code / hash derived from what was observed (right, stale, mutated, longer, shorter, empty, another "
-        "pair's, literal); non-trivial when it verifies a pair to which a send went out earlier; a nonce case = one VerifGenNonceStr run "
+        "pair's, literal); non-trivial when it verifies a pair to which a send went out earlier; codelen histories put CodeLen at buffer boundaries (31..33, 63..65, 127..129, 255..257, 1000..6000); long-* histories repeat one call up to 131075 times (run-length form); a nonce case = one VerifGenNonceStr run "
         "with scripted draws, non-trivial when length > 0 and the alphabet is non-empty; a sample case = 200 codes from the real "
         "generator; distinct = distinct generator script"
     ),
